@@ -47,6 +47,8 @@ try:
                 rp = l.split('replay=')[1].split()[0]
                 try:
                     d = json.load(open(os.path.join('/verif', rp)))
+                    if pid == prop and 'input' in d:
+                        json.dump(d, open(os.path.join(dst, 'replay.json'), 'w'))
                     replay = dict(kind=d.get('kind'), key=d.get('key'), description=(d.get('description') or '')[:400], input=json.dumps(d.get('input'))[:300])
                 except Exception:
                     pass
